@@ -107,6 +107,8 @@ func runCheck(id, tier string) int {
 		return checkC04(tier)
 	case "C05":
 		return checkC05(tier)
+	case "C18":
+		return checkC18(tier)
 	case "C06":
 		return checkC06(tier)
 	case "C07":
